@@ -18,6 +18,7 @@ import Ymq.Lemmas.PolyCrt
 import Ymq.Lemmas.PolyWalkB
 import Ymq.Lemmas.PolyUnit
 import Ymq.Lemmas.PolySizesWalk
+import Ymq.Lemmas.PolyWalkTotal
 import Ymq.Lemmas.PolyMpqs
 import Ymq.Lemmas.PolyQs
 
@@ -324,6 +325,41 @@ theorem size_assert_fails_470 :
       = true := by
   decide +kernel
 
+open Ymq.PolySizes Ymq.PolyCrt in
+/-- `siqs_walk_total`: totality of the SIQS polynomial preparation on the parameter domain. For a factor base as
+`FBase::new` provides it, a selection of distinct primes with roots of `n`, none dividing `n` (`SelOk`, `SelNz`:
+`select_siqs_factors` skips the primes with root 0), its table of inverses (`mkFactors`), `A` the product of the
+selected primes dividing it (at least one; `A` odd for type 2) and `SizeDom n M A nf` (`0 < n < 2^448`,
+`2^15 ≤ M < 2^20`, `target/4 ≤ A ≤ 4·target`, `nf ≤ 32`), and `A ≥ ¾·target` when `nf ≥ 5` (any tolerance divisor
+≥ 4; `a_tolerance_divisor` is ≥ 20 from 111 bits on, where `nfactors` reaches 5): `prepare_a` returns, and
+`Poly::first` followed by `idx` calls of `Poly::next` returns for EVERY `idx < 2^(nf−1)`. No panic site of the
+checked profile is reachable: `assert!(a.bits() < 255)`, `debug_assert!(r0 <= r1)`, the two divisibility
+`debug_assert`s, `assert!(b.bit(0))`, the Gray-code `assert`, `assert!(pol.b.is_positive())`,
+`unreachable!("no inverse of b")`, the rounded-root `assert`, the three bit-length `assert`s, `i32`/`I256`
+overflow, index bounds. Above `2^448` this fails: `size_assert_fails_470`. -/
+theorem siqs_walk_total (n : Int) (sel fb : List Prime) (f : Factors) (a mm : Nat)
+    (hfb : FbOk n fb) (hs : SelOk n sel) (hz : SelNz n sel) (hf : mkFactors n sel = some f)
+    (ha : a = ((afsOf f a).map (·.2.p)).prod) (hne : afsOf f a ≠ [])
+    (haodd : isType2 n = true → a % 2 = 1)
+    (d : SizeDom n mm a (afsOf f a).length)
+    (hroot : (afsOf f a).length ≥ 5 → 3 * siqsTarget n mm ≤ 4 * a) :
+    ∃ pa, prepareA f a fb (-((mm : Int) / 2)) = some pa ∧ pa.factors.length = (afsOf f a).length ∧
+      ∀ idx, idx < 2 ^ ((afsOf f a).length - 1) → ∃ pol, polyAt (mkSieve n mm) pa idx = some pol := by
+  obtain ⟨pa, hpa⟩ := prepareA_isSome (fb := fb) hs hf ha hne
+    (fun q hq => ⟨(hfb.prime q hq).pos.ne', hfb.small q hq⟩) d
+  obtain ⟨_, _, _, _, _, hfac, _⟩ := prepareA_some hpa
+  have hlen : pa.factors.length = (afsOf f a).length := by rw [hfac]; simp
+  have hne' : pa.factors.isEmpty = false := by
+    rw [hfac]
+    cases h : afsOf f a with
+    | nil => exact absurd h hne
+    | cons x xs => simp
+  have w : WalkDom n sel fb f a mm pa :=
+    ⟨hfb.prime, hs, hz, hf, ha, haodd, hpa, hne', hlen ▸ d, fun h5 => hroot (hlen ▸ h5)⟩
+  refine ⟨pa, hpa, hlen, ?_⟩
+  intro idx hidx
+  exact walk_total_aux w idx (hlen ▸ hidx)
+
 /-- `roots_exact_unit`: the unit polynomial `A = 1` (no factor; `x² − n` for type 1, `x² + x + (1 − n)/4`
 for type 2) returned by `Poly::first`: its coefficients are exact (`n` below 2^128 is asserted by the code),
 every prime of the factor base not dividing `a2a` (all primes for type 1, all odd primes for type 2) has
@@ -446,6 +482,24 @@ example : ((prepareA ((mkFactors 1022119 []).get (by decide)) 1 [⟨2, 1⟩, ⟨
     first (mkSieve 1022119 32768) pa).isSome = true ∧
     ((prepareA ((mkFactors 1050589 []).get (by decide)) 1 fbEx (-16384)).bind fun pa =>
     first (mkSieve 1050589 32768) pa).isSome = true := by decide
+
+set_option exponentiation.threshold 1100 in
+open Ymq.PolySizes Ymq.PolyCrt in
+/-- non-vacuity of `siqs_walk_total` / `poly_exact_domain`: `n = 1050589`, `A = 7·11·23`, `M = 32768` (target 2000) -/
+example : FbOk 1050589 fbEx ∧ SelOk 1050589 [⟨7, 1⟩, ⟨11, 1⟩, ⟨23, 8⟩] ∧ SelNz 1050589 [⟨7, 1⟩, ⟨11, 1⟩, ⟨23, 8⟩] ∧
+    (∃ f, mkFactors 1050589 [⟨7, 1⟩, ⟨11, 1⟩, ⟨23, 8⟩] = some f ∧ 1771 = ((afsOf f 1771).map (·.2.p)).prod ∧
+      (afsOf f 1771).length = 3) ∧
+    SizeDom 1050589 32768 1771 3 := by
+  refine ⟨⟨by decide, by decide, by decide⟩, ⟨by decide, by decide, by decide⟩, by unfold SelNz; decide, ?_,
+    ⟨by decide, by decide, by decide, by decide, by decide, by decide, by decide⟩⟩
+  have h : (mkFactors 1050589 [⟨7, 1⟩, ⟨11, 1⟩, ⟨23, 8⟩]).isSome = true := by decide
+  obtain ⟨f, hf⟩ := Option.isSome_iff_exists.mp h
+  refine ⟨f, hf, ?_, ?_⟩
+  · have : ((mkFactors 1050589 [⟨7, 1⟩, ⟨11, 1⟩, ⟨23, 8⟩]).map fun f =>
+        decide (1771 = ((afsOf f 1771).map (·.2.p)).prod)) = some true := by decide
+    rw [hf] at this; simpa using this
+  · have : ((mkFactors 1050589 [⟨7, 1⟩, ⟨11, 1⟩, ⟨23, 8⟩]).map fun f => (afsOf f 1771).length) = some 3 := by decide
+    rw [hf] at this; simpa using this
 
 /-! ### MPQS -/
 
